@@ -45,6 +45,25 @@ def get_use_tree(
     if scope.FQSN in curr_path:
         return use_dict
     new_path = curr_path + [scope.FQSN]
+    # A default PRIVATE module only re-exports the USE associated names that it
+    # explicitly declares PUBLIC
+    if curr_path and scope.def_vis < 0:
+        prefix = f"{scope.FQSN}::"
+        public_names = {
+            name[len(prefix) :].lower()
+            for name in scope.file_ast.public_list
+            if name.lower().startswith(prefix)
+        }
+        if only_list:
+            only_list = [
+                name for name in only_list if rename_map.get(name, name) in public_names
+            ]
+        else:
+            only_list = [
+                name for name, val in rename_map.items() if val in public_names
+            ] + [name for name in public_names if name not in rename_map.values()]
+        if not only_list:
+            return use_dict
     # Add recursively
     for use_stmnt in scope.use:
         # if use_stmnt.mod_name not in obj_tree:
